@@ -176,6 +176,7 @@ class World:
         if os.path.exists(self.root):
             shutil.rmtree(self.root)
         self.sp_dirs = []
+        links = []
         for i, files in enumerate(search_paths):
             sp = os.path.join(self.root, names[i] if names and i < len(names) else f"sp{i}")
             os.makedirs(sp)
@@ -184,6 +185,9 @@ class World:
                 full = os.path.join(sp, rel)
                 if content is None:
                     os.makedirs(full, exist_ok=True)
+                    continue
+                if isinstance(content, dict) and "symlink" in content:
+                    links.append((full, content["symlink"]))
                     continue
                 os.makedirs(os.path.dirname(full), exist_ok=True)
                 if isinstance(content, bytes):
@@ -196,6 +200,11 @@ class World:
                         content = content.replace("<ROOT>", self.root)
                     with open(full, "w", encoding="utf8") as fh:
                         fh.write(content)
+
+        for full, target in links:  # relative targets, created last so that the targets exist
+            os.makedirs(os.path.dirname(full), exist_ok=True)
+            if not os.path.lexists(full):
+                os.symlink(target, full)
 
     def norm(self, text: str) -> str:
         return text.replace(self.root, "<W>")
